@@ -163,7 +163,7 @@ namespace xtl
         using base_value_type = typename base_type::base_value_type;
         using size_type = typename base_type::size_type;
 
-        xoptional_array() = default;
+        xoptional_array();
         xoptional_array(size_type s, const base_value_type& v);
 
         template <class CTO, class CBO>
@@ -492,6 +492,15 @@ namespace xtl
     /**********************************
      * xoptional_array implementation *
      **********************************/
+
+    template <class T, std::size_t I, class BC>
+    xoptional_array<T, I, BC>::xoptional_array()
+        : base_type()
+    {
+        // I missing elements: value-initialized values and as many (false) flags
+        this->m_values = base_container_type();
+        this->m_flags = make_sequence<flag_container_type>(I, false);
+    }
 
     template <class T, std::size_t I, class BC>
     xoptional_array<T, I, BC>::xoptional_array(size_type s, const base_value_type& v)
